@@ -40,25 +40,59 @@ def _check_fn(ctx):
     return ctx.model.func("_pytree_type._MetaPyTree._check")
 
 
+def _pt_functions(ctx):
+    """Functions of jaxtyping/_pytree_type.py that take part in the check (the check itself and
+    helpers extracted from it), excluding the builder."""
+    m = ctx.model
+    return [x for x in m.all_functions(include_typeguard=False) if x.module.short == "_pytree_type" and x.name not in ("__getitem__", "__pdoc__", "__call__")]
+
+
+def _find_in_check(ctx, pred, what):
+    hits = []
+    for g_ in _pt_functions(ctx):
+        for n in ast.walk(g_.node):
+            if pred(n):
+                hits.append((g_, n))
+    if len(hits) != 1:
+        raise AnalysisError(f"C09: {what}: found {len(hits)} candidates in jaxtyping/_pytree_type.py (expected 1)")
+    return hits[0]
+
+
 # ------------------------------------------------------------------------ C09.1
 def check_unbound_composite(ctx):
     m = ctx.model
     f = _check_fn(ctx)
     ctx.saw(f)
-    memo = f.params[2]
+    from .c04 import memo_role
+
+    # lookups of a structure name in the structure memo, in any function of the module (the
+    # composite branch may have been extracted into a helper)
     looks = []
-    for t in ast.walk(f.node):
-        if isinstance(t, ast.Try):
-            for a in t.body:
-                if isinstance(a, ast.Assign) and isinstance(a.value, ast.Subscript) and norm(a.value.value) == memo:
-                    looks.append((t, a))
-    comp = [(t, a) for t, a in looks if not norm(a.value.slice).endswith(".structure")]
-    if not comp:
-        # maybe .get()/in: anything that does not raise AnnotationError
-        ctx.bad("C09.1", f, f.node, "the lookup of a structure name inside a composite structure is no longer a KeyError-guarded lookup that raises AnnotationError",
-                construct="composite lookup")
-        return
-    for t, a in comp:
+    reads = []
+    for g_ in [x for x in m.all_functions(include_typeguard=False) if x.module.short == "_pytree_type"]:
+        memos = {p_ for p_ in g_.params if memo_role(p_) == "pytree"}
+        if not memos:
+            continue
+        for t in ast.walk(g_.node):
+            if isinstance(t, ast.Try):
+                for a in t.body:
+                    if isinstance(a, ast.Assign) and isinstance(a.value, ast.Subscript) and norm(a.value.value) in memos:
+                        looks.append((g_, t, a))
+        for x in ast.walk(g_.node):
+            if isinstance(x, ast.Subscript) and isinstance(x.ctx, ast.Load) and norm(x.value) in memos:
+                reads.append((g_, x))
+            if isinstance(x, ast.Call) and isinstance(x.func, ast.Attribute) and x.func.attr in ("get", "setdefault") and norm(x.func.value) in memos:
+                reads.append((g_, x))
+    comp = [(g_, t, a) for g_, t, a in looks if not norm(a.value.slice).endswith(".structure")]
+    unguarded = [(g_, x) for g_, x in reads if not norm(getattr(x, "slice", x)).endswith(".structure") and not any(a.value is x for _, _, a in looks)]
+    for g_, x in unguarded:
+        if isinstance(x, ast.Call):
+            ctx.bad("C09.1", g_, x, f"a structure name is looked up with `{short(x, 50)}`: a name that is not bound yet does not raise AnnotationError")
+        else:
+            ctx.bad("C09.1", g_, x, f"`{short(x, 50)}`: the lookup of a structure name in a composite is not inside a try whose KeyError handler raises AnnotationError")
+    if not comp and not unguarded:
+        raise AnalysisError("C09.1: the lookup of the structure names of a composite structure was not found in jaxtyping/_pytree_type.py")
+    for f, t, a in comp:
         hk = [h for h in t.handlers if h.type is not None and "KeyError" in norm(h.type)]
         ok = False
         for h in hk:
@@ -135,21 +169,91 @@ def check_builder(ctx):
     if strips:
         ctx.note("PyTree.__getitem__ calls .strip() on the structure before the isinstance test (a non-string structure raises AttributeError); "
                  "outside C09's quantifier (structure *strings*), recorded as an observation")
-    # the `...` exemption applies to end positions only
-    loops = [x for x in ast.walk(f.node) if isinstance(x, ast.For) and isinstance(x.iter, ast.Call) and norm(x.iter.func) == "enumerate"]
-    ok_pos = False
-    for lp in loops:
-        for st in ast.walk(lp):
-            if isinstance(st, ast.If) and "== '...'" in norm(st.test):
-                # must be nested in (or conjoined with) an end-position test
-                outer = [o for o in ast.walk(lp) if isinstance(o, ast.If) and any(x is st for x in ast.walk(o)) and o is not st]
-                cond = " ".join(norm(o.test) for o in outer) + " " + norm(st.test)
-                if "== 0" in cond and "len(pieces) - 1" in cond:
-                    ok_pos = True
-    if ok_pos:
-        ctx.ok("C09.2", f.qualname, "`...` is exempt from the identifier test only at the first or last position")
+    # the per-token validation as a branch table over {identifier, `...`, other} x {first, middle, last}
+    loops = [x for x in ast.walk(f.node) if isinstance(x, ast.For) and isinstance(x.iter, ast.Call) and norm(x.iter.func) == "enumerate"
+             and isinstance(x.target, ast.Tuple) and len(x.target.elts) == 2]
+    loops = [lp for lp in loops if any(isinstance(c, ast.Call) and isinstance(c.func, ast.Attribute) and c.func.attr == "isidentifier" for c in ast.walk(lp))]
+    if len(loops) != 1:
+        raise AnalysisError("C09.2: the per-token validation loop of the structure string was not recognised")
+    lp = loops[0]
+    ivar, pvar = lp.target.elts[0].id, lp.target.elts[1].id
+    seq = norm(lp.iter.args[0])
+    aliases = {}
+    for a in ast.walk(f.node):
+        if isinstance(a, ast.Assign) and len(a.targets) == 1 and isinstance(a.targets[0], ast.Name) and not any(y is a for y in ast.walk(lp)):
+            aliases[a.targets[0].id] = a.value
+
+    def ev(e, cls, env):
+        kind, pos = cls
+        if isinstance(e, ast.BoolOp):
+            vals = [ev(v, cls, env) for v in e.values]
+            return all(vals) if isinstance(e.op, ast.And) else any(vals)
+        if isinstance(e, ast.UnaryOp) and isinstance(e.op, ast.Not):
+            return not ev(e.operand, cls, env)
+        if isinstance(e, ast.Name) and e.id in env:
+            return env[e.id]
+        if isinstance(e, ast.Call) and isinstance(e.func, ast.Attribute) and e.func.attr == "isidentifier" and norm(e.func.value) == pvar:
+            return kind == "identifier"
+        if isinstance(e, ast.Compare) and len(e.ops) == 1 and isinstance(e.ops[0], (ast.Eq, ast.NotEq)):
+            l, r_ = e.left, e.comparators[0]
+            res = None
+            if norm(l) == pvar and isinstance(r_, ast.Constant) and r_.value == "...":
+                res = kind == "ellipsis"
+            elif norm(l) == ivar:
+                rr = aliases.get(r_.id, r_) if isinstance(r_, ast.Name) else r_
+                if isinstance(rr, ast.Constant) and rr.value == 0:
+                    res = pos in ("first", "only")
+                elif norm(rr) in (f"len({seq}) - 1",):
+                    res = pos in ("last", "only")
+            if res is not None:
+                return res if isinstance(e.ops[0], ast.Eq) else not res
+        if isinstance(e, ast.Compare) and len(e.ops) == 1 and isinstance(e.ops[0], ast.In) and norm(e.left) == ivar:
+            r_ = e.comparators[0]
+            if isinstance(r_, (ast.Tuple, ast.List, ast.Set)):
+                vals = []
+                for x in r_.elts:
+                    xx = aliases.get(x.id, x) if isinstance(x, ast.Name) else x
+                    if isinstance(xx, ast.Constant) and xx.value == 0:
+                        vals.append(pos in ("first", "only"))
+                    elif norm(xx) == f"len({seq}) - 1":
+                        vals.append(pos in ("last", "only"))
+                    else:
+                        raise AnalysisError(f"C09.2: unrecognised position `{norm(x)}` in the token validation")
+                return any(vals)
+        raise AnalysisError(f"C09.2: unrecognised atom `{norm(e)}` in the token validation")
+
+    def run_body(stmts, cls, env):
+        for st in stmts:
+            if isinstance(st, ast.Assign) and len(st.targets) == 1 and isinstance(st.targets[0], ast.Name):
+                env[st.targets[0].id] = ev(st.value, cls, env)
+            elif isinstance(st, ast.If):
+                out = run_body(st.body if ev(st.test, cls, env) else st.orelse, cls, env)
+                if out is not None:
+                    return out
+            elif isinstance(st, ast.Raise):
+                nm = st.exc.func.id if isinstance(st.exc, ast.Call) and isinstance(st.exc.func, ast.Name) else "?"
+                return "raise:" + nm
+            elif isinstance(st, ast.Continue):
+                return "ok"
+            elif isinstance(st, (ast.Expr, ast.Pass)):
+                continue
+            else:
+                raise AnalysisError(f"C09.2: unsupported statement `{short(st, 50)}` in the token validation loop")
+        return None
+
+    wrong = []
+    for kind in ("identifier", "ellipsis", "other"):
+        for pos in ("only", "first", "middle", "last"):
+            got = run_body(lp.body, (kind, pos), {}) or "ok"
+            want = "ok" if kind == "identifier" or (kind == "ellipsis" and pos != "middle") else "raise:ValueError"
+            if got != want:
+                wrong.append((kind, pos, got))
+    if wrong:
+        for kind, pos, got in wrong:
+            ctx.bad("C09.2", f, lp, f"a token of kind '{kind}' at the {pos} position of the structure string gives `{got}` when the annotation is built "
+                    f"(expected: identifiers pass, `...` passes only first/last, everything else ValueError)", construct=f"token validation: {kind}@{pos} -> {got}")
     else:
-        ctx.bad("C09.2", f, f.node, "the `...` token is not restricted to the first / last position of the structure string", construct="`...` position test")
+        ctx.ok("C09.2", f.qualname, "token validation over {identifier, ..., other} x {only, first, middle, last}: identifiers pass, `...` only at the ends, everything else ValueError")
     # tokenisation agreement builder <-> checker
     chk = _check_fn(ctx)
 
@@ -161,10 +265,16 @@ def check_builder(ctx):
         return out
 
     b_tok = token_exprs(f, "X.structure")
-    c_tok = token_exprs(chk, "cls.structure")
+    c_tok = []
+    for g_ in _pt_functions(ctx):
+        c_tok += token_exprs(g_, "cls.structure")
     need(b_tok and c_tok, "C09.2: tokenisation of the structure string not found on both sides")
-    bt = norm(b_tok[0]).replace("X.structure", "S")
-    ct = norm(c_tok[0]).replace("cls.structure", "S")
+    import re as _re2
+
+    bt = _re2.sub(r"[A-Za-z_][A-Za-z_0-9]*\.structure", "S", norm(b_tok[0]))
+    import re as _re
+
+    ct = _re.sub(r"[A-Za-z_][A-Za-z_0-9]*\.structure", "S", norm(c_tok[0]))
     if bt != ct or bt != "S.split()":
         ctx.bad("C09.2", f, b_tok[0], f"the builder validates the tokens `{norm(b_tok[0])}` but the checker interprets `{norm(c_tok[0])}`: a structure string can pass validation and still "
                 "contain a token the checker cannot interpret (e.g. `T...`), so it is not rejected with ValueError when the annotation is built",
@@ -175,19 +285,23 @@ def check_builder(ctx):
 
 # ------------------------------------------------------------------------ C09.3
 def check_identifier_form(ctx):
-    f = _check_fn(ctx)
-    memo = f.params[2]
-    ifs = [st for st in ast.walk(f.node) if isinstance(st, ast.If) and norm(st.test) == "cls.structure.isidentifier()"]
-    need(len(ifs) == 1, "C09.3: identifier-form branch not found")
+    from .c04 import memo_role
+
+    f, if0 = _find_in_check(ctx, lambda n: isinstance(n, ast.If) and norm(n.test).endswith(".structure.isidentifier()"), "identifier-form branch")
+    sname = norm(if0.test)[: -len(".isidentifier()")]
+    memos = [p_ for p_ in f.params if memo_role(p_) == "pytree"]
+    need(memos, f"C09.3: {f.qualname} has no structure-memo parameter")
+    memo = memos[0]
+    ifs = [if0]
     body = ifs[0].body
     tries = [x for x in body if isinstance(x, ast.Try)]
     if len(tries) != 1:
         ctx.bad("C09.3", f, ifs[0], "the identifier form is not 'look up; bind if absent; else compare'", construct="identifier form shape")
         return
     tr = tries[0]
-    look = [a for a in tr.body if isinstance(a, ast.Assign) and isinstance(a.value, ast.Subscript) and norm(a.value.value) == memo and norm(a.value.slice) == "cls.structure"]
+    look = [a for a in tr.body if isinstance(a, ast.Assign) and isinstance(a.value, ast.Subscript) and norm(a.value.value) == memo and norm(a.value.slice) == sname]
     hk = [h for h in tr.handlers if h.type is not None and "KeyError" in norm(h.type)]
-    stores = [a for h in hk for a in h.body if isinstance(a, ast.Assign) and norm(a.targets[0]) == f"{memo}[cls.structure]" and norm(a.value) == "structure"]
+    stores = [a for h in hk for a in h.body if isinstance(a, ast.Assign) and norm(a.targets[0]) == f"{memo}[{sname}]" and norm(a.value) == "structure"]
     cmp = [x for x in tr.orelse if isinstance(x, ast.If)]
     ok = look and stores and len(cmp) == 1 and isinstance(cmp[0].test, ast.Compare) and isinstance(cmp[0].test.ops[0], ast.NotEq) \
         and {norm(cmp[0].test.left), norm(cmp[0].test.comparators[0])} == {norm(look[0].targets[0]), "structure"} \
@@ -200,11 +314,7 @@ def check_identifier_form(ctx):
 
 # ------------------------------------------------------------------------ C09.4
 def check_mode_table(ctx):
-    f = _check_fn(ctx)
-    # mode selection
-    sel = [st for st in ast.walk(f.node) if isinstance(st, ast.If) and norm(st.test) in ("pieces[0] == '...'",)]
-    need(len(sel) == 1, "C09.4: mode selection on the first token not found")
-    st = sel[0]
+    f, st = _find_in_check(ctx, lambda n: isinstance(n, ast.If) and norm(n.test) in ("pieces[0] == '...'",), "mode selection on the first token")
 
     def consts(stmts):
         return {norm(a.targets[0]): a.value.value for a in stmts if isinstance(a, ast.Assign) and isinstance(a.value, ast.Constant)}
@@ -227,9 +337,7 @@ def check_mode_table(ctx):
     if drops != {"pieces = pieces[1:]", "pieces = pieces[:-1]"}:
         ctx.bad("C09.4", f, st, f"the `...` token is not removed from the right end of the token list: {sorted(drops)}")
     # rejections of the composite branch
-    comp = [x for x in ast.walk(f.node) if isinstance(x, ast.If) and norm(x.test) == "prefix"]
-    need(len(comp) == 1, "C09.4: dispatch on the mode not found")
-    c = comp[0]
+    f, c = _find_in_check(ctx, lambda n: isinstance(n, ast.If) and norm(n.test) == "prefix", "dispatch on the mode")
     rej = {}
     def rejections(stmts):
         out = []
@@ -250,8 +358,12 @@ def check_mode_table(ctx):
     ok_suf = len(suf) == 1
     ok_exact = len(exact) == 1
     # no other rejection anywhere in the composite branch
-    ident = [x for x in ast.walk(f.node) if isinstance(x, ast.If) and norm(x.test) == "cls.structure.isidentifier()"]
-    all_rej = rejections(ident[0].orelse) if ident else []
+    ident = [x for x in ast.walk(f.node) if isinstance(x, ast.If) and norm(x.test).endswith(".structure.isidentifier()")]
+    if ident:
+        all_rej = rejections(ident[0].orelse)
+    else:
+        # the composite branch lives in a helper of its own: every rejection of that helper counts
+        all_rej = rejections(f.body)
     known = {id(x) for x in pre + suf + exact}
     extra = [x for x in all_rej if id(x) not in known]
     if not (ok_pre and ok_suf and ok_exact) or extra:
